@@ -342,17 +342,22 @@ def run_c18(tier, seed):
     coll_lists.append(('same content twice', [t_ro, t1, t1]))
     coll_lists.append(('same content twice, interleaved', [t1, t_ro, t2, t1]))
     coll_lists.append(('roCreate twice', [t_ro, t_ro, t1]))
+    # a document among the others that is not a running-order message, or not XML at all: every constructor refuses alike
+    coll_lists.append(('an unknown MOS message among the documents', [t_ro, '<mos><mosID>m</mosID><messageID>4</messageID><heartbeat><time>now</time></heartbeat></mos>', t1]))
+    coll_lists.append(('a non-XML document among the documents', [t_ro, t1, 'this is not xml <']))
+    coll_lists.append(('no roDelete, allow_incomplete', [t_ro, t1, TJ.to_text(B.ready_to_air(message_id='7'))]))
     for label, docs in coll_lists:
         h = {'docs': docs, 'seed': label}
-        outs = {via: coll_family.impl_collection(h['docs'], True, False, via=via) for via in ('strings', 'files', 's3')}
-        oc.evaluations += 1
-        oc.in_domain += 1
-        oc.count('collections')
-        key = lambda o: (o['err'], o['reader_ids'], o['text'], o['run']['warns'] if o['run'] else None)
-        if len({json.dumps(key(o)) for o in outs.values()}) != 1:
-            oc.failing.append({'kind': 'collection-sources', 'docs': h['docs'], 'label': label,
-                               'spec': 'collections built from files, strings and S3 keys over the same contents merge to the same result',
-                               'impl': {k: {'err': o['err'], 'reader_ids': o['reader_ids']} for k, o in outs.items()}})
+        for allow in (True, False):
+            outs = {via: coll_family.impl_collection(h['docs'], allow, False, via=via) for via in ('strings', 'files', 's3')}
+            oc.evaluations += 1
+            oc.in_domain += 1
+            oc.count('collections')
+            key = lambda o: (o['err'], o['reader_ids'], o['text'], o['run']['warns'] if o['run'] else None)
+            if len({json.dumps(key(o)) for o in outs.values()}) != 1:
+                oc.failing.append({'kind': 'collection-sources', 'docs': h['docs'], 'label': label + f' allow_incomplete={allow}', 'allow_incomplete': allow,
+                                   'spec': 'collections built from files, strings and S3 keys over the same contents are accepted / refused alike and merge to the same result',
+                                   'impl': {k: {'err': o['err'], 'reader_ids': o['reader_ids']} for k, o in outs.items()}})
     oc.rule = ('documents of every class and random rich documents through file/str/bytes/fake S3 (incl. ISO-8859-1 and UTF-16 '
                'bytes); reader metadata and double restore; all listings of 0..%d pages over 5 key sets x 2 prefixes x 3 suffixes '
                '(enumerated); three collection constructors; non-trivial = distinct document or a listing of >= 2 pages' % (3 if tier == 'quick' else 4))
@@ -388,7 +393,7 @@ def replay_c18(pid, fl):
         print({'impl': got, 'expected': expect})
         bad = got != expect
     elif fl['kind'] == 'collection-sources':
-        outs = {via: coll_family.impl_collection(fl['docs'], True, False, via=via) for via in ('strings', 'files', 's3')}
+        outs = {via: coll_family.impl_collection(fl['docs'], fl.get('allow_incomplete', True), False, via=via) for via in ('strings', 'files', 's3')}
         bad = len({json.dumps((o['err'], o['reader_ids'], o['text'])) for o in outs.values()}) != 1
     if bad:
         print(f'VIOLATION property={pid} replay=(this file): still fails on the current tree')
@@ -456,6 +461,12 @@ def file_pool(rng):
     pool['itemreplace_blank.mos.xml'] = ('xml', TJ.to_text(B.item_replace(B.BLANK, B.BLANK, [E('item', E('itemID'))], message_id='95')))
     pool['ea_move_notarget.mos.xml'] = ('xml', TJ.to_text(B.ea('MOVE', B.ABSENT, [B.ids('storyID', [B.BLANK])], message_id='96')))
     pool['ea_swap_blank.mos.xml'] = ('xml', TJ.to_text(B.ea('SWAP', {'storyID': B.BLANK}, [B.ids('itemID', [B.BLANK, B.BLANK])], message_id='97')))
+    # roElementAction messages without any element_target (classifiable: the operation and the source decide)
+    pool['ea_insert_notarget.mos.xml'] = ('xml', TJ.to_text(B.ea('INSERT', B.ABSENT, [[B.story('NT1', [])]], message_id='70')))
+    pool['ea_replace_notarget.mos.xml'] = ('xml', TJ.to_text(B.ea('REPLACE', B.ABSENT, [[B.story('NT2', [])]], message_id='71')))
+    pool['ea_itemdelete_notarget.mos.xml'] = ('xml', TJ.to_text(B.ea('DELETE', B.ABSENT, [B.ids('itemID', ['i1', 'i2'])], message_id='72')))
+    pool['ea_itemswap_notarget.mos.xml'] = ('xml', TJ.to_text(B.ea('SWAP', B.ABSENT, [B.ids('itemID', ['i1', 'i2'])], message_id='73')))
+    pool['ea_storydelete_notarget.mos.xml'] = ('xml', TJ.to_text(B.ea('DELETE', B.ABSENT, [B.ids('storyID', ['A'])], message_id='74')))
     # names with glob metacharacters, next to files their pattern would match
     pool['story[1].mos.xml'] = ('xml', TJ.to_text(B.story_append([B.story('G1')], message_id='81')))
     pool['story1.mos.xml'] = ('xml', TJ.to_text(B.story_delete(['A'], message_id='82')))
@@ -671,6 +682,16 @@ def run_c19(tier, seed):
                     oc.evaluations += 1
                     oc.in_domain += 1
                     oc.count('cmd:merge/s3')
+                    # files AND a bucket given: the listed files are what is merged (as for detect / inspect)
+                    other = {'coll/000_other.mos.xml': TJ.to_text(B.ro_doc([B.story('OTHER-BUCKET-CONTENT', [])], message_id='1')).encode('utf-8'),
+                             'coll/001_other.mos.xml': TJ.to_text(B.ro_delete(message_id='2')).encode('utf-8')}
+                    coll_family.install_fake_s3(coll_family.FakeS3(other, page_size=3))
+                    sb, eb, rb = run_cli(['merge', '-f'] + paths + ['-b', 'bucket', '-p', 'coll/'] + (['-i'] if inc else []) + (['-n'] if ns else []))
+                    if (sb, 0 if rb is None else rb) != (sf, 0 if rf is None else rf):
+                        oc.failing.append({'kind': 'cli-s3', 'cmd': 'merge', 'argv': ['-f', '...', '-b', 'bucket', '-p', 'coll/'], 'keys': sorted(other),
+                                           'label': f'merge -f files -b bucket incomplete={inc} non_strict={ns}',
+                                           'spec': 'with files listed, merge merges the listed files (a bucket named as well changes nothing)',
+                                           'impl': {'with_bucket': {'status': rb, 'stdout': sb[:400], 'stderr': eb[:200]}, 'files_only': {'status': rf, 'stdout': sf[:400]}}})
                     if (so, status) != (sf, 0 if rf is None else rf):
                         oc.failing.append({'kind': 'cli-s3', 'cmd': 'merge', 'argv': ['-b', 'bucket', '-p', 'coll/'], 'keys': sorted(objs),
                                            'label': f'merge over S3 incomplete={inc} non_strict={ns}',
